@@ -545,7 +545,12 @@ impl<'a> Gen<'a> {
         }
     }
     fn rep(&mut self, out: &mut Vec<u8>) {
-        match self.rng.below(10) {
+        let k = self.rng.below(10);
+        self.rep_kind(out, k)
+    }
+    /// one representation of a chosen kind: 0..=2 indexed, 3..=6 incremental, 7..=8 without indexing, 9 never indexed
+    fn rep_kind(&mut self, out: &mut Vec<u8>, kind: u64) {
+        match kind {
             0..=2 => {
                 self.tag("indexed");
                 let i = self.index(false);
@@ -613,6 +618,22 @@ impl<'a> Gen<'a> {
             for _ in 0..k {
                 self.size_update(&mut out);
             }
+        }
+        if self.is_bad() && self.rng.chance(1, 4) {
+            // a size update whose whole prefix is ONE kind of representation (each kind clears the decoder's
+            // "may still resize" flag on its own line of code), then possibly more fields
+            self.tag("update-after-uniform-prefix");
+            let kind = *self.rng.pick(&[0u64, 3, 7, 9]);
+            let k = self.rng.range(1, 3);
+            for _ in 0..k {
+                self.rep_kind(&mut out, kind);
+            }
+            self.size_update(&mut out);
+            let m = self.rng.below(3);
+            for _ in 0..m {
+                self.rep(&mut out);
+            }
+            return out;
         }
         let n = if self.rng.chance(1, 20) { 0 } else { self.rng.range(1, 8) };
         for i in 0..n {
